@@ -1,25 +1,19 @@
 /-
-  EG.Lemmas.PMap — general facts about pixel maps (`PMap.apply`, `lastWrite`, `runDefault`,
-  `runNative` of EG.Model.Target), in particular for lists of `fill_solid` calls:
+  EG.Lemmas.PMap — more facts about pixel maps (on top of EG.Lemmas.Target: `lastWrite` algebra,
+  `PMap.apply_eq`, `runDefault_eq_runNative`), in particular for lists of `fill_solid` calls:
   the value at `p` is the colour of the LAST rectangle containing `p`, restricted to the target box;
   and for `draw_iter` of a write list whose points are pairwise distinct.
 -/
-import EG.Model.Target
-import EG.Lemmas.RectPoints
+import EG.Lemmas.Target
 namespace EG
+open EG.Tgt
 
 /-! ### `apply`: last write wins -/
 
 theorem PMap.apply_nil (m : PMap) : m.apply [] = m := rfl
 
-/-- One write on top of a map. -/
-def PMap.write (m : PMap) (w : Pt × Color) : PMap := fun p => if p = w.1 then some w.2 else m p
-
-theorem PMap.write_at (m : PMap) (w : Pt × Color) (p : Pt) :
-    m.write w p = if p = w.1 then some w.2 else m p := rfl
-
-theorem PMap.apply_cons (m : PMap) (w : Pt × Color) (ws : Writes) :
-    m.apply (w :: ws) = (m.write w).apply ws := rfl
+theorem PMap.set_at (m : PMap) (w : Pt × Color) (p : Pt) :
+    Tgt.PMap.set m w p = if p = w.1 then some w.2 else m p := rfl
 
 theorem PMap.apply_append (m : PMap) (ws1 ws2 : Writes) :
     m.apply (ws1 ++ ws2) = (m.apply ws1).apply ws2 := by
@@ -35,7 +29,7 @@ theorem PMap.apply_of_not_mem (m : PMap) (ws : Writes) (p : Pt) (h : ∀ w ∈ w
   | cons w ws ih =>
     rw [PMap.apply_cons, ih _ (fun w' hw' => h w' (List.mem_cons_of_mem _ hw'))]
     have := h w List.mem_cons_self
-    rw [PMap.write_at, if_neg (fun e => this e.symm)]
+    rw [PMap.set_at, if_neg (fun e => this e.symm)]
 
 /-- If all writes carry the same colour, a touched point has that colour. -/
 theorem PMap.apply_const (m : PMap) (ws : Writes) (p : Pt) (c : Color)
@@ -49,7 +43,7 @@ theorem PMap.apply_const (m : PMap) (ws : Writes) (p : Pt) (c : Color)
     · rw [PMap.apply_of_not_mem _ ws p (fun w' hw' e => hex ⟨w', hw', e⟩)]
       obtain ⟨w', hw', e⟩ := hp
       rcases List.mem_cons.mp hw' with rfl | hw'
-      · rw [PMap.write_at, if_pos e.symm, hc w' List.mem_cons_self]
+      · rw [PMap.set_at, if_pos e.symm, hc w' List.mem_cons_self]
       · exact absurd ⟨w', hw', e⟩ hex
 
 /-- If every point is written at most once, a written point has the colour written to it. -/
@@ -62,76 +56,20 @@ theorem PMap.apply_nodup (m : PMap) (ws : Writes) (p : Pt) (c : Color)
     rw [List.map_cons, List.nodup_cons] at hn
     rcases List.mem_cons.mp hp with rfl | hp'
     · rw [PMap.apply_of_not_mem]
-      · rw [PMap.write_at]; simp
+      · rw [PMap.set_at]; simp
       · intro w' hw' e
         exact hn.1 (List.mem_map.mpr ⟨w', hw', e⟩)
     · exact ih _ hn.2 hp'
 
-/-! ### `lastWrite`: the lookup form of `apply` -/
-
-theorem lastWrite_nil (p : Pt) : lastWrite [] p = none := rfl
-
-theorem lastWrite_cons (w : Pt × Color) (ws : Writes) (p : Pt) :
-    lastWrite (w :: ws) p =
-      match lastWrite ws p with
-      | some c => some c
-      | none => if w.1 = p then some w.2 else none := by
-  unfold lastWrite
-  rw [List.reverse_cons, List.find?_append]
-  cases h : ws.reverse.find? (fun w => w.1 == p) with
-  | some w' => simp
-  | none =>
-    by_cases e : w.1 = p
-    · simp [e]
-    · simp [e]
+/-! ### `lastWrite`: the lookup form of `apply` (from EG.Lemmas.Target) -/
 
 /-- `apply` is "look up the last write, else the old content". -/
 theorem PMap.apply_eq_lastWrite (m : PMap) (ws : Writes) (p : Pt) :
     m.apply ws p = match lastWrite ws p with
       | some c => some c
       | none => m p := by
-  induction ws generalizing m with
-  | nil => rfl
-  | cons w ws ih =>
-    rw [PMap.apply_cons, ih, lastWrite_cons]
-    cases lastWrite ws p with
-    | some c => rfl
-    | none =>
-      by_cases e : w.1 = p
-      · simp [e, PMap.write_at]
-      · have e' : ¬ p = w.1 := fun h => e h.symm
-        simp [e, e', PMap.write_at]
-
-theorem PMap.empty_apply_eq_lastWrite (ws : Writes) (p : Pt) :
-    PMap.empty.apply ws p = lastWrite ws p := by
-  rw [PMap.apply_eq_lastWrite]
+  rw [PMap.apply_eq]
   cases lastWrite ws p <;> rfl
-
-/-! ### Trait defaults = documented meaning (for every call) -/
-
-theorem zip_replicate_length {α β : Type} (l : List α) (c : β) :
-    l.zip (List.replicate l.length c) = l.map (fun p => (p, c)) := by
-  induction l with
-  | nil => rfl
-  | cons a l ih => simp [List.replicate_succ, ih]
-
-/-- Each trait default offers exactly the writes of the documented meaning. -/
-theorem Call.lowerDefault_eq_lowerNative (B : Rect) (c : Call) :
-    c.lowerDefault B = c.lowerNative B := by
-  cases c with
-  | drawIter px => rfl
-  | fillContiguous area cs => simp only [Call.lowerDefault, Call.lowerNative, Rect.points_eq_spec]
-  | fillSolid area c =>
-    simp only [Call.lowerDefault, Call.lowerNative, zip_replicate_length, Rect.points_eq_spec]
-  | clear c =>
-    simp only [Call.lowerDefault, Call.lowerNative, zip_replicate_length, Rect.points_eq_spec]
-
-/-- A draw_iter-only target and a native-fill target end with the same map, for every call list
-and every target box. -/
-theorem runDefault_eq_runNative (B : Rect) (calls : List Call) :
-    runDefault B calls = runNative B calls := by
-  unfold runDefault runNative Call.writesDefault Call.writesNative
-  simp only [Call.lowerDefault_eq_lowerNative]
 
 /-! ### Runs of call lists -/
 
@@ -283,7 +221,7 @@ theorem PMap.apply_clip_nodup (B : Rect) (ws : Writes) (hn : (ws.map Prod.fst).N
 /-- ... and `p` is untouched iff it is not written inside the box. -/
 theorem PMap.apply_clip_eq_none (B : Rect) (ws : Writes) (p : Pt) :
     PMap.empty.apply (clipWrites B ws) p = none ↔ ¬ (B.contains p = true ∧ ∃ c, (p, c) ∈ ws) := by
-  rw [PMap.empty_apply_eq_lastWrite]
+  rw [PMap.empty_apply]
   unfold lastWrite
   cases h : (clipWrites B ws).reverse.find? (fun w => w.1 == p) with
   | some w =>
